@@ -24,7 +24,6 @@ import (
 	"encoding/binary"
 	"fmt"
 	"net/netip"
-	"os"
 	"sort"
 	"strings"
 	"testing"
@@ -43,12 +42,14 @@ import (
 const findingF24 = "C29-F24"
 
 func TestMain(m *testing.M) {
-	evid.Rule("rapid draws a capture script outside the bubble with the C20 generator (1-2 interfaces, lz4/null encoder, manager start 0..299 s after a boundary, 1-6 decisive conversations of both families " +
-		"(TCP/UDP/ICMP/ICMPv6/other protocols, collapsing client ports), 1-4 scheduled write-outs with per-interval packet scripts incl. malformed packets, idle intervals, a tail) and places 0-5 live queries per interval at drawn positions " +
-		"(also directly after a write-out, 1 ns before one, and before the first write-out); each query comes from the C08 generator (attribute subsets / aliases incl. time, iface and raw, one interface / list / any, " +
+	evid.Rule("rapid draws a capture script outside the bubble with the C20 generator (1-2 interfaces, lz4/null encoder, manager start 0..299 s after a boundary, 1-6 decisive conversations " +
+		"(TCP/UDP/ICMP/ICMPv6/other protocols, collapsing client ports), 1-4 scheduled write-outs with per-interval packet scripts incl. malformed packets, idle intervals, a tail); the check adds 1-3 TCP/UDP conversations " +
+		"(the missing IP family first, so that every script has both), 0-6 extra packets per interval (replays of drawn packets in other intervals / on the other interface, packets of the added conversations) " +
+		"and 0-5 live queries per interval at drawn positions, more often late in the interval (also directly after a write-out, 1 ns before one, and a few before the first write-out); " +
+		"each query comes from the C08 generator (attribute subsets / aliases incl. time, iface and raw, one interface / list / any, " +
 		"condition from the whole grammar with address and network leaves of both families — two thirds of the leaf values are re-drawn from the hosts, ports and protocols of the script's conversations —, optional direction filter, " +
 		"lower bound from {block ts, ±1, ±300, day bounds, outside}, low-memory on/off) with Live = true and no upper bound; the twin run executes the same script without the queries; " +
-		"non-trivial = at some live query the selected interfaces hold in-memory flows of both IP families and the condition accepts some and rejects some of them; distinct by script text + query texts")
+		"non-trivial = at some compared live query the selected interfaces hold in-memory flows of both IP families and the condition accepts some and rejects some of them; distinct by script text + query texts")
 	evid.Assume("the flows in memory at a query are the successfully parsed packets delivered since the last write-out, keyed by the stored key computed with the exported ParsePacketV4/V6 and ClassifyPacketDirectionV4/V6 (verified by C19/C22; that the capture holds exactly these is C20's subject); only decisive conversations are generated",
 		"the stored part of the expectation is computed from the blocks read back from the database files after the run (blocks with timestamp <= instant of the query; blocks are immutable once written — C01/C03), not from the capture model: a capture defect does not show up as a query defect",
 		"a live query must carry Last = types.MaxTime (query.Args.SetDefaults; prepLiveArg rejects anything else); in-memory flows are reported whatever the lower bound is",
@@ -987,25 +988,4 @@ func TestC29Live(t *testing.T) {
 // TestC29LiveExcluding searches everything finding C29-F24 does not touch: every query asks for all four attributes.
 func TestC29LiveExcluding(t *testing.T) {
 	rapid.Check(t, func(rt *rapid.T) { run(t, rt, true) })
-}
-
-// TestC29Spike prints what the engine returns for a few scripts (development aid, C29_SPIKE=1).
-func TestC29Spike(t *testing.T) {
-	if os.Getenv("C29_SPIKE") == "" {
-		t.Skip()
-	}
-	rapid.Check(t, func(rt *rapid.T) {
-		s := drawScript(rt, false)
-		r := runScript(t, s, true)
-		fmt.Printf("---- script\n%s", s.canon())
-		fmt.Printf("err=%v panic=%s readErr=%v logs=%v\n", r.Err, r.Panic, r.ReadErr, r.ErrorLogs)
-		for _, q := range r.Queries {
-			fmt.Printf("  q@%d action %d dirs=%v err=%v\n", q.Now, q.Action, q.Dirs, q.Err)
-			if q.Res != nil {
-				for _, row := range q.Res.Rows {
-					fmt.Printf("      %v %s | %+v | %+v\n", row.Labels.Timestamp, row.Labels.Iface, row.Attributes, row.Counters)
-				}
-			}
-		}
-	})
 }
